@@ -372,13 +372,13 @@ def _posixpath_probe(tier="quick", seed=0):
     from pptx.opc.packuri import PackURI
 
     t0 = _t.time()
-    alphabet = ["slide", "slide12", "a.b", "x.tar.gz", "noext", "UPPER.XML", "[Content_Types].xml", "_rels", "7z"]
+    alphabet = ["slide", "slide12", "a.b", "x.tar.gz", "noext", "UPPER.XML", "[Content_Types].xml", "_rels", "7z", "image001.png", "slide0.xml", "media01.mp4", "Slide10a2.xml"]
     maxd = 3 if tier == "quick" else 4
     names = []
     for d in range(1, maxd + 1):
         for combo in itertools.product(alphabet, repeat=d):
             names.append("/" + "/".join(combo))
-        if len(names) > (4000 if tier == "quick" else 40000):
+        if len(names) > (6000 if tier == "quick" else 40000):
             break
     bad = None
     evals = 0
